@@ -305,9 +305,6 @@ def run(tier, seed, part=None):
             res = explorer.explore(SPEC, params, depth, dev, time_cap=cap, seed=seed,
                                    label=f"at{gen}/d{depth}/v{dev}")
             chk.add_explorer(f"at{gen}", SPEC, params, res, {"depth": depth, "deviations": dev})
-    if tier == "thorough":
-        classes, pairs, mism = explorer.audit(SPEC, {"gen": 4}, 3, 1, seed=seed)
-        chk.cov["audit"] = {"classes": classes, "pairs_compared": pairs, "mismatches": len(mism)}
-        if mism:
-            raise explorer.HarnessError(f"fingerprint audit mismatch: {mism[:2]}")
+    chk.add_audit(SPEC, {"gen": 4}, 3, 1, limit=6000 if tier == "thorough" else 600)
+    chk.add_audit(SPEC, {"gen": 5}, 3, 1, limit=6000 if tier == "thorough" else 600)
     return chk.finish()
